@@ -261,6 +261,10 @@ def attributes(tokeniser: Any) -> list[Route]:
             break
 
         ipmask = prefix(tokeniser)
+        if IP.toafi(ipmask.top()) != template_settings.afi:
+            # the family (and with it the meaning of the shared next-hop) was taken from the last prefix:
+            # a prefix of the other family would be packed with the wrong address length
+            raise ValueError(f'the prefixes after nlri must all be of one address family: {ipmask.top()}/{ipmask.mask}')
         # Copy template settings and update with new CIDR
         settings = copy(template_settings)
         settings.cidr = CIDR.create_cidr(ipmask.pack_ip(), ipmask.mask)
